@@ -127,15 +127,21 @@ Section Tg.
 
   Lemma has_ty_of : forall t T, fterm_type t = Some T -> has_ty t (compile_ty T) = true.
   Proof. intros t T H. unfold has_ty, tyo. rewrite H. simpl. apply cty_eqb_eq. reflexivity. Qed.
+  Lemma has_ty_i64 : forall t, fterm_type t = Some FI64 -> has_ty t CI64 = true.
+  Proof. intros t H. exact (has_ty_of t FI64 H). Qed.
   Lemma same_ty_of : forall t T, fterm_type t = Some T -> same_ty t (Some T) = true.
   Proof. intros t T H. simpl. apply has_ty_of. exact H. Qed.
+
+  Definition ctx_inst (ctx : fctx) : Prop := forall b, In b ctx -> has_inst_p stF (fbty b).
+  Lemma ctx_inst_snoc : forall ctx b, ctx_inst ctx -> has_inst_p stF (fbty b) -> ctx_inst (ctx ++ [b]).
+  Proof. intros ctx b H Hb x Hx. apply in_app_or in Hx. destruct Hx as [Hx|[<-|[]]]; auto. Qed.
 
   Definition ptg_at (t : fterm) : Prop :=
     forall eager st ctx T t' st' G,
       core_frag t = true ->
       term_names_ok t = true -> ctx_names_ok ctx = true -> ty_names_ok T = true -> tables ts fs st -> pinv st ->
       check_term_gen eager t st ctx T = COk (t', st') ->
-      grows st' stF -> has_inst_p stF T -> ctx_rel ctx G ->
+      grows st' stF -> has_inst_p stF T -> ctx_rel ctx G -> ctx_inst ctx ->
       (calls_main t' = true -> calls_main_prog q = true) ->
       tg G t' = true /\ fterm_type t' = Some T /\ is_cns_var t' = false.
 
@@ -152,11 +158,11 @@ Section Tg.
       tables ts fs st -> pinv st ->
       check_args_with (check_term_gen eager) args sg st ctx = COk (args', st') ->
       List.length args = List.length sg ->
-      grows st' stF -> ctx_rel ctx G ->
+      grows st' stF -> ctx_rel ctx G -> ctx_inst ctx ->
       (any_calls_main args' = true -> calls_main_prog q = true) ->
       tg_args G args' (compile_ctx sg) = true.
   Proof.
-    intros args HF. induction HF as [|a ar Ha HFr IH]; intros eager sg st ctx args' st' G Hf Hm Hc Ht T I H Hlen GF R Hcm.
+    intros args HF. induction HF as [|a ar Ha HFr IH]; intros eager sg st ctx args' st' G Hf Hm Hc Ht T I H Hlen GF R CI Hcm.
     - destruct sg; [|discriminate]. simpl in H. inversion H; subst. reflexivity.
     - destruct sg as [|b br]; [discriminate|]. simpl in Hlen. simpl in Hm, Ht, Hf.
       apply andb_true_iff in Hm. destruct Hm as [Hma Hmr]. apply andb_true_iff in Ht. destruct Ht as [Htb Htr].
@@ -176,10 +182,10 @@ Section Tg.
         rewrite inst_ctx_nil in H3.
         assert (G2F : grows st2 stF) by frame.
         assert (HiF : has_inst_p stF (fbty b)) by (eapply has_inst_grows; [|exact Hi1]; frame).
-        destruct (Ha eager st1 ctx _ a' st2 G Hfa Hma Hc Htb (tables_same _ _ _ _ T S1) I1 H2 G2F HiF R ltac:(cm Hcm)) as [K1 [K2 K3]].
+        destruct (Ha eager st1 ctx _ a' st2 G Hfa Hma Hc Htb (tables_same _ _ _ _ T S1) I1 H2 G2F HiF R CI ltac:(cm Hcm)) as [K1 [K2 K3]].
         simpl compile_ctx. rewrite tg_args_cons. unfold Fun2CoreTyGuard.tg_arg. simpl cbchi. rewrite Ech. simpl compile_chi. cbv iota.
         rewrite K3, K1. simpl cbty. rewrite (has_ty_of _ _ K2), (HtyF _ Htb HiF). simpl.
-        apply (IH eager br st2 ctx ar' st' G Hfr Hmr Hc Htr (tables_same _ _ _ _ T S12) I2 H3); [lia|exact GF|exact R|cm Hcm].
+        apply (IH eager br st2 ctx ar' st' G Hfr Hmr Hc Htr (tables_same _ _ _ _ T S12) I2 H3); [lia|exact GF|exact R|exact CI|cm Hcm].
       + (* consumer argument: a covariable *)
         destruct a as [v ann chi| | | | | | | | | | | | | |]; try discriminate.
         assert (Hgo : exists found st1 st2 ar', lookup_covar ctx v = COk found
@@ -208,6 +214,164 @@ Section Tg.
         pose proof (var_ok_rel _ _ _ _ R Hb0) as Hv. rewrite Hb0c, Hbt in Hv. simpl in Hv. rewrite Hv.
         simpl cbty. rewrite Heq. rewrite (has_ty_of (FVar v (Some found) (Some FCns)) found eq_refl).
         rewrite <- Heq. rewrite (HtyF _ Htb HiF). simpl.
-        apply (IH eager br st2 ctx ar' st' G Hfr Hmr Hc Htr (tables_same _ _ _ _ T S12) I2 H3); [lia|exact GF|exact R|cm Hcm].
+        apply (IH eager br st2 ctx ar' st' G Hfr Hmr Hc Htr (tables_same _ _ _ _ T S12) I2 H3); [lia|exact GF|exact R|exact CI|cm Hcm].
+  Qed.
+  Lemma check_args_ptg : forall args, Forall ptg_at args ->
+    forall eager sg st ctx args' st' G,
+      core_frags args = true ->
+      terms_names_ok args = true -> ctx_names_ok ctx = true -> ctx_names_ok sg = true ->
+      tables ts fs st -> pinv st ->
+      check_args (check_term_gen eager) args sg st ctx = COk (args', st') ->
+      grows st' stF -> ctx_rel ctx G -> ctx_inst ctx ->
+      (any_calls_main args' = true -> calls_main_prog q = true) ->
+      tg_args G args' (compile_ctx sg) = true.
+  Proof.
+    intros args HF eager sg st ctx args' st' G Hf Hm Hc Ht T I H GF R CI Hcm. unfold check_args in H.
+    destruct (Nat.eqb (List.length sg) (List.length args)) eqn:El; [|discriminate]. simpl in H.
+    apply PeanoNat.Nat.eqb_eq in El.
+    exact (check_args_with_ptg args HF eager sg st ctx args' st' G Hf Hm Hc Ht T I H (eq_sym El) GF R CI Hcm).
+  Qed.
+
+  (* the frame facts of one step, from Proof/CheckPolySound.v *)
+  Lemma step_frame : forall t eager st ctx T t' st',
+    term_names_ok t = true -> ctx_names_ok ctx = true -> ty_names_ok T = true -> tables ts fs st -> pinv st ->
+    check_term_gen eager t st ctx T = COk (t', st') ->
+    pinv st' /\ same_templates st st' /\ grows st st' /\ tables ts fs st'.
+  Proof.
+    intros t eager st ctx T t' st' Hm Hc HT Tb I H.
+    destruct (check_term_gen_psound ts fs W t eager st ctx T t' st' Hm Hc HT Tb I H) as [_ [I1 [S1 [G1 _]]]].
+    splits; auto. eapply tables_same; eassumption.
+  Qed.
+
+  Theorem check_term_gen_ptg : forall t, ptg_at t.
+  Proof.
+    intros t. induction t using fterm_ind'; unfold ptg_at;
+      intros eager st ctx T t' st' G Hf Hm Hc HT Tb I Hk GF HiT R CI Hcm; simpl in Hk; simpl in Hm; simpl in Hf; try discriminate Hf.
+    - (* FVar *)
+      assert (Hx : exists found st1, lookup_var ctx v = COk found /\
+                       match ty with Some t => check_equality st t found | None => COk st end = COk st1 /\
+                       check_equality st1 T found = COk st' /\ t' = FVar v (Some T) (Some FPrd)).
+      { destruct chi as [[|]|]; try discriminate;
+          (apply cbind_ok in Hk; destruct Hk as [found [Hl Hk]];
+           apply cbind_ok in Hk; destruct Hk as [st1 [H1 Hk]];
+           apply cbind_ok in Hk; destruct Hk as [st2 [H2 Hk]]; inversion Hk; subst; eauto 10). }
+      destruct Hx as [found [st1 [Hl [H1 [H2 ->]]]]].
+      destruct (lookup_var_last _ _ _ Hl) as [b0 [Hb0 [Hb0c Hbt]]].
+      destruct (lookup_var_E _ _ _ Hl) as [_ [b1 [Hb1 Hbt1]]].
+      assert (Hmf : ty_names_ok found = true) by (subst found; rewrite <- Hbt1; apply (ctx_names_ok_in ctx); assumption).
+      destruct (ann_check_psound ts fs W ty found st st1 Hm Hmf Tb I H1) as [_ [I1 [S1 G1]]].
+      destruct (check_equality_sound ts fs W _ _ _ _ HT Hmf (tables_same _ _ _ _ Tb S1) I1 H2) as [Heq _].
+      rewrite tg_var. pose proof (var_ok_rel _ _ _ _ R Hb0) as Hv. rewrite Hb0c, Hbt, <- Heq in Hv. simpl in Hv.
+      rewrite Hv. auto.
+    - (* FLit *)
+      apply cbind_ok in Hk. destruct Hk as [st1 [H1 Hk]]. inversion Hk; subst.
+      destruct (check_equality_sound ts fs W T FI64 _ _ HT eq_refl Tb I H1) as [Heq _]. subst T. auto.
+    - (* FOp *)
+      apply andb_true_iff in Hm. destruct Hm as [Hm1 Hm2]. apply andb_true_iff in Hf. destruct Hf as [Hf1 Hf2].
+      apply cbind_ok in Hk. destruct Hk as [st1 [H1 Hk]].
+      apply cbind_ok in Hk. destruct Hk as [[a' st2] [H2 Hk]].
+      apply cbind_ok in Hk. destruct Hk as [[b' st3] [H3 Hk]]. inversion Hk; subst.
+      destruct (check_equality_sound ts fs W FI64 T _ _ eq_refl HT Tb I H1) as [Heq [_ [I1 [S1 [G1 _]]]]]. subst T.
+      destruct (step_frame _ _ _ _ FI64 _ _ Hm1 Hc eq_refl (tables_same _ _ _ _ Tb S1) I1 H2) as [I2 [S2 [G2 Tb2]]].
+      destruct (step_frame _ _ _ _ FI64 _ _ Hm2 Hc eq_refl Tb2 I2 H3) as [I3 [S3 [G3 Tb3]]].
+      destruct (IHt1 eager st1 ctx FI64 a' st2 G Hf1 Hm1 Hc eq_refl (tables_same _ _ _ _ Tb S1) I1 H2 ltac:(frame) Logic.I R CI ltac:(cm Hcm)) as [K1 [K2 _]].
+      destruct (IHt2 eager st2 ctx FI64 b' st' G Hf2 Hm2 Hc eq_refl Tb2 I2 H3 GF Logic.I R CI ltac:(cm Hcm)) as [K3 [K4 _]].
+      rewrite tg_op, K1, K3. rewrite (has_ty_i64 _ K2), (has_ty_i64 _ K4). auto.
+    - (* FIfC *)
+      apply andb_true_iff in Hm. destruct Hm as [Hm Hm4]. apply andb_true_iff in Hm. destruct Hm as [Hm Hm3].
+      apply andb_true_iff in Hm. destruct Hm as [Hm1 Hm2].
+      apply andb_true_iff in Hf. destruct Hf as [Hf Hf4]. apply andb_true_iff in Hf. destruct Hf as [Hf Hf3].
+      apply andb_true_iff in Hf. destruct Hf as [Hf1 Hf2].
+      apply cbind_ok in Hk. destruct Hk as [[a' st1] [H1 Hk]].
+      apply cbind_ok in Hk. destruct Hk as [[b' st2] [H2 Hk]].
+      apply cbind_ok in Hk. destruct Hk as [[th' st3] [H3 Hk]].
+      apply cbind_ok in Hk. destruct Hk as [[el' st4] [H4 Hk]]. inversion Hk; subst.
+      destruct (step_frame _ _ _ _ FI64 _ _ Hm1 Hc eq_refl Tb I H1) as [I1 [S1 [G1 Tb1]]].
+      assert (Hb : pinv st2 /\ grows st1 st2 /\ tables ts fs st2 /\
+                   (grows st2 stF -> (match b' with Some b1 => calls_main b1 | None => false end = true -> calls_main_prog q = true) ->
+                    match b' with Some b1 => tg G b1 && has_ty b1 CI64 | None => true end = true)).
+      { destruct b as [b0|].
+        - apply cbind_ok in H2. destruct H2 as [[b1 sb] [H2 H2']]. inversion H2'; subst.
+          destruct (step_frame _ _ _ _ FI64 _ _ Hm2 Hc eq_refl Tb1 I1 H2) as [I2 [S2 [G2 Tb2]]]. splits; auto.
+          intros GF2 Hcm2.
+          destruct (H b0 eq_refl eager st1 ctx FI64 b1 st2 G Hf2 Hm2 Hc eq_refl Tb1 I1 H2 GF2 Logic.I R CI Hcm2) as [K1 [K2 _]].
+          rewrite K1, (has_ty_i64 _ K2). reflexivity.
+        - inversion H2; subst. splits; frame. }
+      destruct Hb as [I2 [G2 [Tb2 Kb]]].
+      destruct (step_frame _ _ _ _ _ _ _ Hm3 Hc HT Tb2 I2 H3) as [I3 [S3 [G3 Tb3]]].
+      destruct (step_frame _ _ _ _ _ _ _ Hm4 Hc HT Tb3 I3 H4) as [I4 [S4 [G4 Tb4]]].
+      destruct (IHt1 eager st ctx FI64 a' st1 G Hf1 Hm1 Hc eq_refl Tb I H1 ltac:(frame) Logic.I R CI ltac:(cm Hcm)) as [K1 [K2 _]].
+      destruct (IHt2 eager st2 ctx T th' st3 G Hf3 Hm3 Hc HT Tb2 I2 H3 ltac:(frame) HiT R CI ltac:(cm Hcm)) as [K3 [K4 _]].
+      destruct (IHt3 eager st3 ctx T el' st' G Hf4 Hm4 Hc HT Tb3 I3 H4 GF HiT R CI ltac:(cm Hcm)) as [K5 [K6 _]].
+      rewrite tg_ifc, K1, (has_ty_i64 _ K2), K3, K5, (same_ty_of _ _ K4), (same_ty_of _ _ K6).
+      rewrite Kb; [auto|frame|]. destruct b' as [b1|]; [|discriminate]. cm Hcm.
+    - (* FPrint *)
+      apply andb_true_iff in Hm. destruct Hm as [Hm1 Hm2]. apply andb_true_iff in Hf. destruct Hf as [Hf1 Hf2].
+      apply cbind_ok in Hk. destruct Hk as [[a' st1] [H1 Hk]].
+      apply cbind_ok in Hk. destruct Hk as [[n' st2] [H2 Hk]]. inversion Hk; subst.
+      destruct (step_frame _ _ _ _ FI64 _ _ Hm1 Hc eq_refl Tb I H1) as [I1 [S1 [G1 Tb1]]].
+      destruct (step_frame _ _ _ _ _ _ _ Hm2 Hc HT Tb1 I1 H2) as [I2 [S2 [G2 Tb2]]].
+      destruct (IHt1 eager st ctx FI64 a' st1 G Hf1 Hm1 Hc eq_refl Tb I H1 ltac:(frame) Logic.I R CI ltac:(cm Hcm)) as [K1 [K2 _]].
+      destruct (IHt2 eager st1 ctx T n' st' G Hf2 Hm2 Hc HT Tb1 I1 H2 GF HiT R CI ltac:(cm Hcm)) as [K3 [K4 _]].
+      rewrite tg_print, K1, (has_ty_i64 _ K2), K3, (same_ty_of _ _ K4). auto.
+    - (* FLet *)
+      apply andb_true_iff in Hm. destruct Hm as [Hm Hm3]. apply andb_true_iff in Hm. destruct Hm as [Hm1 Hm2].
+      apply andb_true_iff in Hf. destruct Hf as [Hf1 Hf2].
+      apply cbind_ok in Hk. destruct Hk as [st1 [H1 Hk]].
+      apply cbind_ok in Hk. destruct Hk as [[a' st2] [H2 Hk]].
+      apply cbind_ok in Hk. destruct Hk as [[b' st3] [H3 Hk]]. inversion Hk; subst.
+      destruct (ty_check_sound ts fs W _ _ _ Hm1 Tb I H1) as [_ [I1 [S1 [G1 Hi1]]]].
+      pose proof (tables_same _ _ _ _ Tb S1) as Tb1.
+      destruct (step_frame _ _ _ _ _ _ _ Hm2 Hc Hm1 Tb1 I1 H2) as [I2 [S2 [G2 Tb2]]].
+      assert (Hc' : ctx_names_ok (ctx ++ [mkfb v FPrd vty]) = true).
+      { apply ctx_names_ok_app; [assumption|]. unfold ctx_names_ok. simpl. rewrite Hm1. reflexivity. }
+      destruct (step_frame _ _ _ _ _ _ _ Hm3 Hc' HT Tb2 I2 H3) as [I3 [S3 [G3 Tb3]]].
+      assert (HiV : has_inst_p stF vty) by (eapply has_inst_grows; [|exact Hi1]; frame).
+      destruct (IHt1 eager st1 ctx vty a' st2 G Hf1 Hm2 Hc Hm1 Tb1 I1 H2 ltac:(frame) HiV R CI ltac:(cm Hcm)) as [K1 [K2 _]].
+      destruct (IHt2 eager st2 _ T b' st' _ Hf2 Hm3 Hc' HT Tb2 I2 H3 GF HiT (ctx_rel_snoc _ _ (mkfb v FPrd vty) R) (ctx_inst_snoc _ (mkfb v FPrd vty) CI HiV) ltac:(cm Hcm)) as [K3 [K4 _]].
+      rewrite tg_let, K1, (has_ty_of _ _ K2), (HtyF _ Hm1 HiV). unfold compile_binding in K3. simpl in K3. rewrite K3, (same_ty_of _ _ K4). auto.
+    - (* FCall *)
+      rewrite terms_names_ok_eq in Hm. rewrite core_frags_eq in Hf.
+      destruct (aget (st_defs st) f) as [[types ret]|] eqn:Ed; [|discriminate].
+      rewrite (t_df _ _ _ Tb) in Ed. destruct (FunTyping.find_def fs f) as [d|] eqn:Ef; [|discriminate]. simpl in Ed. inversion Ed; subst.
+      assert (Hdin : In d fs /\ fdname d = f).
+      { unfold FunTyping.find_def in Ef; apply find_some in Ef. destruct Ef as [? Ef]. apply String.eqb_eq in Ef. tauto. }
+      destruct Hdin as [Hdin Hdn].
+      destruct (PW_defs _ _ W d Hdin) as [Hmd Hmr].
+      apply cbind_ok in Hk. destruct Hk as [st1 [H1 Hk]].
+      apply cbind_ok in Hk. destruct Hk as [[args' st2] [H2 Hk]]. inversion Hk; subst.
+      destruct (check_equality_sound ts fs W _ _ _ _ HT Hmr Tb I H1) as [Heq [_ [I1 [S1 [G1 Hi1]]]]].
+      destruct (HdefF d Hdin) as [d' [Hfd [Hcx Hrt]]].
+      assert (K : tg_args G args' (compile_ctx (fdctx d)) = true).
+      { eapply (check_args_ptg args H eager (fdctx d) st1 ctx args' st' G); eauto using tables_same.
+        intros X. apply Hcm. simpl. rewrite any_calls_main_eq. rewrite X. apply orb_true_r. }
+      rewrite tg_call, Hfd, Hcx, Hrt, K, <- Heq. simpl.
+      assert (Hmain : negb (String.eqb (fdname d) "main") || calls_main_prog q = true).
+      { destruct (String.eqb (fdname d) "main") eqn:Em; [|reflexivity]. simpl. apply Hcm. simpl. rewrite Em. reflexivity. }
+      rewrite Hmain. simpl. rewrite (HtyF _ HT HiT). rewrite (proj2 (cty_eqb_eq _ _) eq_refl). auto.
+    - (* FLabel *)
+      apply cbind_ok in Hk. destruct Hk as [[u' st1] [H1 Hk]]. inversion Hk; subst.
+      assert (Hc' : ctx_names_ok (ctx ++ [mkfb l FCns T]) = true).
+      { apply ctx_names_ok_app; [assumption|]. unfold ctx_names_ok. simpl. rewrite HT. reflexivity. }
+      destruct (IHt eager st _ T u' st' _ Hf Hm Hc' HT Tb I H1 GF HiT (ctx_rel_snoc _ _ (mkfb l FCns T) R) (ctx_inst_snoc _ (mkfb l FCns T) CI HiT) ltac:(cm Hcm)) as [K1 [K2 _]].
+      rewrite tg_label. unfold compile_binding in K1. simpl in K1. rewrite K1, (HtyF _ HT HiT), (has_ty_of _ _ K2). auto.
+    - (* FGoto *)
+      apply cbind_ok in Hk. destruct Hk as [cont [Hl Hk]].
+      apply cbind_ok in Hk. destruct Hk as [[u' st1] [H1 Hk]]. inversion Hk; subst.
+      destruct (lookup_covar_last _ _ _ Hl) as [b0 [Hb0 [Hb0c Hbt]]].
+      destruct (lookup_covar_E _ _ _ Hl) as [_ [b1 [Hb1 Hbt1]]].
+      assert (Hmf : ty_names_ok cont = true) by (subst cont; rewrite <- Hbt1; apply (ctx_names_ok_in ctx); assumption).
+      assert (HiC : has_inst_p stF cont) by (rewrite <- Hbt1; apply CI; exact Hb1).
+      destruct (IHt eager st ctx cont u' st' G Hf Hm Hc Hmf Tb I H1 GF HiC R CI ltac:(cm Hcm)) as [K1 [K2 _]].
+      rewrite tg_goto, K1, K2. pose proof (var_ok_rel _ _ _ _ R Hb0) as Hv. rewrite Hb0c, Hbt in Hv. simpl in Hv. rewrite Hv.
+      simpl. rewrite (HtyF _ Hmf HiC). auto.
+    - (* FExit *)
+      apply cbind_ok in Hk. destruct Hk as [[a' st1] [H1 Hk]]. inversion Hk; subst.
+      destruct (IHt eager st ctx FI64 a' st' G Hf Hm Hc eq_refl Tb I H1 GF Logic.I R CI ltac:(cm Hcm)) as [K1 [K2 _]].
+      rewrite tg_exit, K1, (has_ty_i64 _ K2). simpl. rewrite (HtyF _ HT HiT). auto.
+    - (* FParen *)
+      apply cbind_ok in Hk. destruct Hk as [[u' st1] [H1 Hk]]. inversion Hk; subst.
+      destruct (IHt eager st ctx T u' st' G Hf Hm Hc HT Tb I H1 GF HiT R CI ltac:(cm Hcm)) as [K1 [K2 K3]].
+      rewrite tg_paren. simpl. auto.
   Qed.
 End Tg.
